@@ -1198,4 +1198,92 @@ Proof.
     |eapply nab_bind; [apply nab_opt_m|]; intros id _; eapply nab_bind; [apply nab_opt_m|]; intros refused _];
     apply nab_ret; exact Hb.
 Qed.
+
+(* ---- the dynamic preferred solver *)
+Definition kok (k : dcomp) : Prop := lit_ok (k_sel k) = true.
+Lemma dyn_split_ok (af : fw) e cur sp : epos e -> dyn_split L af e cur = Some sp ->
+  clause_ok (fst sp) = true /\ clause_ok (snd sp) = true.
+Proof.
+  intros (P1 & _) H. unfold dyn_split in H.
+  destruct (tbl_vars (e_a2v e) (filter (fun i => memb i cur) _)) as [i|] eqn:Ei; [|discriminate].
+  destruct (tbl_vars (e_a2v e) (filter (fun i => negb (memb i cur)) _)) as [o|] eqn:Eo; [|discriminate].
+  apply some_inj in H. subst sp. cbn [fst snd].
+  split; apply clause_ok_map; intros x Hx; apply lit_ok_zlit;
+    [exact (tbl_vars_pos _ _ P1 i Ei x Hx)|exact (tbl_vars_pos _ _ P1 o Eo x Hx)].
+Qed.
+Lemma nab_k_solve e a : epos e -> clause_ok a = true -> nab (k_solve oracle e a) T.
+Proof.
+  intros (_ & _ & P3) Ha. unfold k_solve. eapply nab_bind; [apply nab_solve; rewrite clause_ok_app, Ha, P3; reflexivity|].
+  intros r _. apply nab_ret. exact I.
+Qed.
+Lemma nab_k_new_search e k : epos e -> kok k -> nab (k_new_search oracle e k) kok.
+Proof.
+  intros He Hk. unfold k_new_search. eapply nab_bind; [apply nab_k_solve; [exact He|rewrite clause_ok_single, lit_ok_negate; exact Hk]|].
+  intros r _. apply nab_ret. destruct r; exact Hk.
+Qed.
+Lemma nab_k_discard (af : fw) e k : epos e -> kok k -> nab (k_discard L af e k) T.
+Proof.
+  intros He Hk. unfold k_discard. eapply nab_bind; [apply nab_opt_m|]. intros sp Hsp.
+  destruct (dyn_split_ok af e _ sp He Hsp) as [_ H2]. apply nab_add. rewrite clause_ok_app, H2, clause_ok_single. exact Hk.
+Qed.
+Lemma nab_k_compute_next (af : fw) e k : epos e -> kok k -> nab (k_compute_next oracle L af e k) kok.
+Proof.
+  intros He Hk. unfold k_compute_next. destruct (k_state k).
+  - eapply nab_bind; [apply nab_k_discard; assumption|]. intros _ _. apply nab_k_new_search; assumption.
+  - eapply nab_bind; [apply nab_opt_m|]. intros sp Hsp. destruct (dyn_split_ok af e _ sp He Hsp) as [H1 H2].
+    eapply nab_bind; [apply nab_add; rewrite clause_ok_app, H2, clause_ok_single; exact Hk|]. intros _ _.
+    eapply nab_bind; [apply nab_k_solve; [exact He|rewrite clause_ok_app, H1, clause_ok_single, lit_ok_negate; exact Hk]|].
+    intros r _. apply nab_ret. destruct r; exact Hk.
+  - apply nab_k_new_search; assumption.
+  - apply nab_panic.
+  - apply nab_ret. exact Hk.
+Qed.
+Lemma nab_pr_loop fuel (af : fw) e arg_id : epos e -> forall k fm ia ms, kok k ->
+  nab (pr_loop oracle L fuel af e arg_id k fm ia ms) (fun res => kok (fst (fst (fst (fst res))))).
+Proof.
+  intros He. induction fuel as [|f IH]; intros k fm ia ms Hk; cbn [pr_loop]; [apply nab_oof|].
+  eapply nab_bind; [apply nab_k_compute_next; assumption|]. intros k' Hk'. cbv zeta.
+  destruct (k_state k').
+  - destruct (negb _); [apply nab_ret; exact Hk'|apply IH; exact Hk'].
+  - destruct (memb arg_id (k_cur k')); [|apply IH; exact Hk'].
+    eapply nab_bind; [apply nab_k_discard; assumption|]. intros _ _. apply IH. exact Hk'.
+  - apply IH. exact Hk'.
+  - apply nab_ret. exact Hk'.
+  - apply IH. exact Hk'.
+Qed.
+Lemma nab_pr_ds_query fuel (s : dsolver L) l : spos s -> nab (pr_ds_query oracle L leqb fuel s l) (fun r => spos (fst r)).
+Proof.
+  intros Hs. unfold pr_ds_query. destruct (is_skep L leqb (s_buf L s) l) as [[b|] [e|]]; try (apply nab_ret; exact Hs).
+  all: eapply nab_bind; [apply nab_update_encoding; exact Hs|]; intros [af buf] Hb; cbn [snd] in Hb;
+    destruct (b_enc L buf) as [e0|e0] eqn:Eb; [|apply nab_panic]; cbn [xpos] in Hb;
+    eapply nab_bind; [apply nab_nvars|]; intros nv _;
+    eapply nab_bind; [apply nab_opt_m|]; intros arg_id _;
+    (eapply nab_bind; [apply nab_pr_loop; [exact Hb|unfold kok; cbn [k_sel]; apply lit_ok_zlit; lia]|]);
+    intros [[[[k result] acc_b] ref_b] ext] Hk; cbn [fst] in Hk;
+    eapply nab_bind; [apply nab_opt_m|]; intros acc _;
+    eapply nab_bind; [apply nab_opt_m|]; intros refused _;
+    (eapply nab_bind; [apply nab_add; rewrite clause_ok_single; exact Hk|]); intros _ _;
+    apply nab_ret; unfold spos; cbn [fst s_buf buf_push buf_with b_enc]; rewrite Eb; exact Hb.
+Qed.
+
+(* ---- every kind *)
+Theorem nab_dyn_query thr fuel (s : dsolver L) q cert l :
+  spos s ->
+  (forall sm, s_kind L s = KDummy sm ->
+     1 <= thr /\ allgood (view_of_fw (s_af L s)) /\
+     forall id, get_argument L leqb (s_af L s) l = Some id -> mgood (view_of_fw (s_af L s)) [id]) ->
+  nab (dyn_query oracle L leqb thr fuel s q cert l) (fun r => spos (fst r)).
+Proof.
+  intros Hs Hd. unfold dyn_query.
+  assert (Hstrip : forall m : Prog.M (dsolver L * answer_t), nab m (fun r => spos (fst r)) ->
+            nab (r <- m ;; ret (fst r, if cert then snd r else (fst (snd r), None))) (fun r => spos (fst r))).
+  { intros m Hm. eapply nab_bind; [exact Hm|]. intros r Hr. apply nab_ret. exact Hr. }
+  destruct (s_kind L s) as [| | |num den|num den|sm] eqn:Ek; destruct q; try apply nab_panic;
+    try (apply Hstrip; first [apply nab_dc_query|apply nab_st_ds_query|apply nab_pr_ds_query]; exact Hs).
+  all: destruct (Hd sm eq_refl) as (Ht & Hall & Hm);
+    (eapply nab_bind; [apply nab_opt_m|]); intros id Hid;
+    (eapply nab_bind; [apply (nab_run_query thr Ht); [exact Hall|intros _; exact (Hm id Hid)]|]); intros o _;
+    (eapply (nab_bind _ _ (fun _ => True)); [|intros a _; apply nab_ret; exact Hs]);
+    unfold outcome_answer; destruct o; [apply nab_panic|apply nab_ret; exact I].
+Qed.
 End DynWalk.
